@@ -423,8 +423,17 @@ def rule_delegation(ctx):
     # under which condition is each piece produced? (one tuple-valued `if`, or one `if` per piece, aliases inlined)
     from . import reject as RJ
 
+    class _TC(dict):
+        """template text -> conditions; keys are looked up up to renaming of the interpolated names"""
+
+        def get(self, pattern, default=None):
+            if pattern in self:
+                return self[pattern]
+            hits = [v for k, v in self.items() if A.TTxt(k).same(pattern)]
+            return hits[0] if len(hits) == 1 else default
+
     def tpl_conditions(g):
-        out = {}
+        out = _TC()
         for mac, ps in A.find(g.block, ("Expr::Macro", "Stmt::Macro")):
             if A.path_last(mac["mac"]["path"]) == "quote":
                 txt = T.ir_text(T.to_ir(mac["mac"]["tokens"])).replace(" ", "")
